@@ -578,7 +578,13 @@ pub fn run_random<D: Driver>(opts: &RunOpts) -> Outcome {
                 // a failure of another property does not end the history (it would
                 // mask a later failure of the property under check), unless the
                 // state can no longer be trusted to be memory safe
-                let fatal = fs.iter().any(|f| f.pred == "no-panic-on-contract-respecting-history" || (f.pred == "queue-walk-sound" && f.detail.contains("dangling")));
+                // Failures of the structural / protocol riders (C01, C17, C18, C20) do not involve a reference
+                // model: the history may go on. A failed model-based predicate of another property means the
+                // reference model and the implementation have diverged (model drift): whatever the models say
+                // from here on is not evidence, the history ends.
+                let is_target = |f: &Fail| opts.prop == f.prop || opts.prop == "all";
+                let drift = fs.iter().any(|f| !is_target(f) && !["C01", "C17", "C18", "C20"].contains(&f.prop));
+                let fatal = drift || fs.iter().any(|f| f.pred == "no-panic-on-contract-respecting-history" || (f.pred == "queue-walk-sound" && f.detail.contains("dangling")));
                 tainted += 1;
                 if target_hit || fatal || stop || tainted > 40 {
                     failed = true;
